@@ -6,6 +6,7 @@ package olareg
 // graphs vary per run) specialised per property.
 
 import (
+	"encoding/base64"
 	"fmt"
 	"strings"
 
@@ -409,7 +410,11 @@ func (g *gen) tagsOp(repo int) Op {
 	case 5:
 		op.N = fmt.Sprint(nt + 1)
 	case 6:
-		op.N = "100000"
+		// oversized values, up to the largest an int holds (a page computed as last+n must not wrap around)
+		op.N = g.r.str("100000", "2147483647", "2147483648", "4294967296", "9223372036854775806", "9223372036854775807")
+		if g.r.chance(60) {
+			op.Last = g.r.str(g.anyTag(repo), "0", "zzzz")
+		}
 	case 7:
 		op.N = g.r.str("-1", "-5", "-100000")
 	case 8:
@@ -529,10 +534,32 @@ func planC01(prop string, seed uint64, tier string, idx int) *Plan {
 		g.p.Objs = append(g.p.Objs, &Obj{Kind: "raw", Raw: `{"schemaVersion":2,"mediaType":"` + mtOCIIndex + `","manifests":[{"mediaType":"` + g.p.Objs[plat].mediaType() + `","digest":"` + g.p.Objs[plat].digest("sha256") + `","size":` + fmt.Sprint(sz) + `}]}`, Subject: -1})
 		wrongSize = append(wrongSize, len(g.p.Objs)-1)
 	}
+	// … and with an embedded "data" field that is not the content of the child (what is served under the child's digest
+	// has to be the child, wherever the registry takes the bytes from)
+	for _, emb := range []string{"embedded bytes that are not the manifest", string(g.p.Objs[img].data)} {
+		for _, sz := range []int{len(emb), len(g.p.Objs[plat].data)} {
+			g.p.Objs = append(g.p.Objs, &Obj{Kind: "raw", Raw: `{"schemaVersion":2,"mediaType":"` + mtOCIIndex + `","manifests":[{"mediaType":"` + g.p.Objs[plat].mediaType() + `","digest":"` + g.p.Objs[plat].digest("sha256") + `","size":` + fmt.Sprint(sz) + `,"data":"` + base64.StdEncoding.EncodeToString([]byte(emb)) + `"}]}`, Subject: -1})
+			wrongSize = append(wrongSize, len(g.p.Objs)-1)
+		}
+	}
 	n := g.scale(g.r.between(4, 14))
 	for i := 0; i < n; i++ {
 		repo := g.r.intn(g.nrepos())
-		switch g.r.intn(15) {
+		switch g.r.intn(16) {
+		case 15:
+			// two sessions opened for one announced digest (mount without a source falls back to a session that expects it),
+			// open at the same time: the second one is fed other bytes, the first one completes
+			x, y := blobs[0], blobs[1]
+			a, b := g.nextSess(), g.nextSess()
+			g.add(Op{K: "sess", Act: "post", Repo: repo, Sess: a, Obj: x, S: "mount-nofrom"})
+			g.add(Op{K: "sess", Act: "patch", Sess: a, Obj: x, A: 1 << 20})
+			g.add(Op{K: "sess", Act: "post", Repo: repo, Sess: b, Obj: x, S: "mount-nofrom"})
+			g.add(Op{K: "sess", Act: "patch", Sess: b, Obj: y, A: 1 << 20})
+			g.add(Op{K: "sess", Act: "put", Sess: a, Obj: x})
+			g.add(Op{K: "get", Mode: "blob", Repo: repo, Obj: x})
+			g.add(Op{K: "sess", Act: g.r.str("delete", "get", "put"), Sess: b, Obj: y})
+			g.add(Op{K: "get", Mode: "blob", Repo: repo, Obj: x})
+			g.markBlob(repo, x)
 		case 14:
 			g.pushManifest(repo, plat, "", false)
 			g.add(Op{K: "man", Repo: repo, Obj: wrongSize[g.r.intn(len(wrongSize))], Tag: "sz", CT: g.r.str(mtOCIIndex, "none")})
@@ -786,6 +813,22 @@ func planC04(prop string, seed uint64, tier string, idx int) *Plan {
 	good2 := g.newImage(-1, good)
 	gidx := g.newIndex([]int{good}, -1)
 	art := g.newImage(good, -1)
+	// an image whose only layer is declared "not to be distributed" (foreign media type, urls): it has to be there like any other
+	flayer := g.newBlob(g.r.between(1, 200)) // (objects are materialised in order: a layer comes before the image that names it)
+	fimg := g.newImage(-1, -1)
+	g.p.Objs[flayer].DescMT = g.r.str("application/vnd.oci.image.layer.nondistributable.v1.tar+gzip", "application/vnd.docker.image.rootfs.foreign.diff.tar.gzip", "application/vnd.oci.image.layer.nondistributable.v1.tar")
+	g.p.Objs[fimg].Layers = []int{flayer}
+	// a manifest that is valid up to the size limit and goes on beyond it (padding, then more): cut at the limit it would pass
+	k4 := &g.p.Knobs
+	big := -1
+	if g.r.chance(35) {
+		k4.ManifestLimit = int64(g.r.pick(600, 1000, 2048, 4096))
+		big = g.newImage(-1, good)
+		materialise(g.p.Objs)
+		if cur := len(g.p.Objs[big].data); int(k4.ManifestLimit) > cur {
+			g.p.Objs[big].Pad = int(k4.ManifestLimit) - cur + g.r.pick(1, 2, 50)
+		}
+	}
 	// bodies whose own mediaType field contradicts their shape (config/layers under an index type and the reverse)
 	confImg := g.newImage(-1, -1)
 	g.p.Objs[confImg].MT = g.r.str(mtOCIIndex, mtDockList)
@@ -851,6 +894,20 @@ func planC04(prop string, seed uint64, tier string, idx int) *Plan {
 			}
 		case 3:
 			// one layer missing
+			if g.r.chance(40) {
+				g.ensureBlob(repo, g.p.Objs[fimg].Config)
+				g.add(Op{K: "man", Repo: repo, Obj: fimg, Tag: g.r.str("", "foreign")})
+				break
+			}
+			if big >= 0 && g.r.chance(50) {
+				o := g.p.Objs[big]
+				g.ensureBlob(repo, o.Config)
+				for _, l := range o.Layers {
+					g.ensureBlob(repo, l)
+				}
+				g.add(Op{K: "man", Repo: repo, Obj: big, Tag: g.r.str("big", "big", ""), Len: g.r.str("unknown", "unknown", "")})
+				break
+			}
 			o := g.p.Objs[good2]
 			g.ensureBlob(repo, o.Config)
 			g.add(Op{K: "man", Repo: repo, Obj: good2, Tag: g.r.str("", "half")})
@@ -951,6 +1008,18 @@ func planC07(prop string, seed uint64, tier string, idx int) *Plan {
 	arts = append(arts, dangling)
 	filters := []string{"application/vnd.example.sbom", "application/vnd.example.sig", "text/plain", mtEmpty, "nomatch", "application/vnd.example.cfg",
 		"application/vnd.Example.Sig.v1+json", "application/x;v=1", "application/vnd.example.sig.v1+json", "application/x"}
+	if g.r.chance(25) {
+		// every artifact of one type, a type with characters that mean something in a query string: a filtered listing
+		// that needs several pages has to carry the filter through its Link chain unharmed
+		at := g.r.str("application/vnd.example.sbom+json", "application/x;v=1", "application/a&b=c", "text/p%20q", "x/y#z", "application/vnd.example.sig+xml; q=1")
+		for _, a := range arts {
+			if o := g.p.Objs[a]; o.Kind == "image" && a != dangling {
+				o.AT = at
+			}
+		}
+		filters = []string{at, at, at, "application/vnd.example.sig"}
+		g.p.Profile = "referrers, one artifact type with reserved characters"
+	}
 	n := g.scale(g.r.between(6, 20))
 	for i := 0; i < n; i++ {
 		repo := g.r.intn(g.nrepos())
